@@ -53,7 +53,7 @@ MANIFEST = {
 }
 EXPLANATION = MANIFEST["level_text"]
 TRUSTED = [
-    "pyvc VC generator (ordered dict = insertion-ordered sequence of distinct keys), slicer; z3 5.1.0 / cvc5 1.0.3",
+    "pyvc VC generator (ordered dict = insertion-ordered sequence of distinct keys), slicer; z3 5.1.0 / cvc5 1.4.0",
     "threading.Lock gives mutual exclusion; CPython attribute loads/stores are atomic",
     "C12 (token openers): _open_cursor_token / _open_call_token accept only tokens sealed by this key for the same identity (AAD injective), within the TTL, and return the sealed fields",
     "pyarrow.ipc.read_schema(py_buffer(schema.serialize())) == schema; X.deserialize_from_bytes(x.serialize_to_bytes()) == x",
